@@ -185,8 +185,8 @@ RULES["C10"] = (_STREAM + "each stream is delivered once in full-buffer reads to
 PROPS["C10"] = {
     "level": "exploration",
     "quick": shards(5, "TestC10", 120, mode="period", floor=40) + [S("TestC10", 400, mode="single", floor=100)]
-             + [S("TestC10", 1, mode="poweron", env={"VERIF_FAST": 1}, floor=1, weight=4), S("TestC10", 1, mode="poweron", env={"VERIF_FAST": 0}, floor=1, weight=2),
-                S("TestC10", 1, mode="factory", env={"VERIF_FAST": 1}, floor=1, weight=4)],
+             + [S("TestC10", 1, mode="poweron", env={"VERIF_FAST": 1, "VERIF_TARGETS": "one-bad"}, floor=1, weight=4), S("TestC10", 1, mode="poweron", env={"VERIF_FAST": 0, "VERIF_TARGETS": "one-bad"}, floor=1, weight=2),
+                S("TestC10", 1, mode="poweron", env={"VERIF_FAST": 0, "VERIF_TARGETS": "one-bad"}, floor=1, weight=2), S("TestC10", 1, mode="factory", env={"VERIF_FAST": 1, "VERIF_TARGETS": "one-bad"}, floor=1, weight=4)],
     "thorough": shards(6, "TestC10", 2500, mode="period", floor=600) + [S("TestC10", 5000, mode="single", floor=1000)]
              + [S("TestC10", 10, mode="poweron", env={"VERIF_FAST": f}, floor=3, weight=3, timeout=3400) for f in (0, 1, 1)]
              + [S("TestC10", 4, mode="factory", env={"VERIF_FAST": f}, floor=2, weight=3, timeout=3400) for f in (0, 1)],
